@@ -237,6 +237,34 @@ impl ResumableSessions {
         self.records.len() != before
     }
 
+    /// [`Self::remove_for_fabric`], with the removal written through to `kv` at once.
+    ///
+    /// The cache is normally persisted by a debounced background task; the removal of a
+    /// fabric's records must not wait for it: should the node restart before the task
+    /// runs, the records would be back - and the fabric's local index is handed out again
+    /// to the next fabric.
+    pub fn remove_for_fabric_persist<K: crate::persist::KvBlobStoreAccess>(
+        &mut self,
+        fab_idx: NonZeroU8,
+        kv: K,
+    ) -> Result<(), Error> {
+        let before = self.records.len();
+        self.remove_for_fabric(fab_idx);
+
+        if self.records.len() != before {
+            kv.access(|store, buf| {
+                if buf.is_empty() {
+                    // A no-op access (e.g. a dummy store with an empty buffer) skips persistence
+                    return Ok(());
+                }
+
+                self.store_persist(store, buf)
+            })?;
+        }
+
+        Ok(())
+    }
+
     /// Drop the record identified by peer identity, if any.
     pub fn remove_by_peer(&mut self, fab_idx: NonZeroU8, peer_nodeid: u64) {
         self.records
